@@ -7,8 +7,9 @@
    sel_dir = matches_dir, ignore files as an oracle ign1.
    Declarative reading: WalkProofs.selected _ _ _ t c false roots x = "x is reachable from an input path
    through directory entries (and, with follow_links, through links), at most `depth` directory levels
-   deep, no entry on the way (the input path included, finding N4) has a hidden name unless --hidden or is
-   matched by an ignore file collected on the way unless --no-ignore, every step stays on the device of
+   deep, no entry visited at a level > 0 (i.e. strictly below the input path; the input path itself may be
+   hidden) has a hidden name unless --hidden, no entry is matched by an ignore file collected on the way
+   unless --no-ignore, every step stays on the device of
    the input path with --one-fs, and x is a regular file, or with -S a link to one, that sel_file
    accepts".  selected ... true ... is the same with the matches_dir tests of the code.
    Quantification: every tree (cycles, dangling links, duplicate keys included), every configuration,
@@ -19,14 +20,15 @@
      considered, so the result depends on the schedule and selected files can be lost
      (C09_N1_witness).  C09_exact is therefore stated for follow_links = false (the class N1 is exactly
      follow_links = true); C09_exact_follow_partial covers follow_links = true when nothing depends on
-     the route (--no-ignore, no --one-fs, --depth larger than the tree, no directory pruned).
+     the route (--no-ignore, no --one-fs, --depth larger than the tree, no directory pruned, and the
+     hidden-name test — which is skipped at level 0 — never fires: --hidden or no hidden name).
      Missing for the full statement: it is false in the model and in the code.
    * N2: with follow_links pruning is applied to the directories of the route, which are not
      ancestors of the file (C09_N2_witness): conservativity of matches_dir does not help.
    * K3 (--exclude /x/b prunes /x/bar) lives inside sel_dir: it is a failure of the hypothesis
      `conservative` (engine P's C16_partial_conservative, which excludes --exclude), checked on every
      generated case by the correspondence harness; it is not visible in this model.
-   * N4 (hidden input path skipped) is part of `selected` (enters is required of the input path too). *)
+   * N4 (hidden input path skipped) was fixed in the code (b49314c): the hidden test applies at level > 0. *)
 From FV Require Import Base WalkModel WalkProofs WalkProofs2 WalkProofs3 WalkProofs4.
 Open Scope N_scope.
 
@@ -50,10 +52,13 @@ Proof. exact stmt_exact. Qed.
 Print Assumptions C09_exact.
 
 (* With link following: exact when the options are route independent. *)
+(* (the level-dependent hidden test is one more route-dependent option: an input path /r/l -> .h that is
+   also reached through /r at level 1 is recorded as visited there, and its hidden target is dropped) *)
 Theorem C09_exact_follow_partial :
   forall sel_file sel_dir ign1 t c sched roots l x,
     c_follow c = true -> c_no_ignore c = true -> c_one_fs c = false ->
     N.of_nat (length (keys t)) < c_depth c -> (forall p, sel_dir p = true) ->
+    (c_hidden c = true \/ forall p, In p (keys t) -> name_hidden p = false) ->
     scan sel_file sel_dir ign1 t c sched roots = Done l ->
     (In x l <-> selected sel_file sel_dir ign1 t c false roots x /\ size_ok t c x = true).
 Proof. exact stmt_exact_follow. Qed.
@@ -124,5 +129,12 @@ Proof. split; [intros ? ? ? ?; reflexivity|]. split; [reflexivity|exact ex_nofol
 Example C09_exact_follow_inhabited :
   c_follow wcfg2 = true /\ c_no_ignore wcfg2 = true /\ c_one_fs wcfg2 = false /\
   N.of_nat (length (keys wtree)) < c_depth wcfg2 /\
+  (forall p, In p (keys wtree) -> name_hidden p = false) /\
   scan all_true all_true no_ign wtree wcfg2 sched_lifo [[]] = Done [[nD; nF]].
-Proof. destruct ex_follow as [H1 H2]. repeat split; auto. Qed.
+Proof. destruct ex_follow as (H1 & H2 & H3). repeat split; auto. Qed.
+
+(* a hidden input path is scanned, a hidden directory below an input path is not (no --hidden) *)
+Example C09_hidden_root_scanned :
+  scan all_true all_true no_ign htree wcfg3 sched_lifo [[nH]] = Done [[nH; nF]] /\
+  scan all_true all_true no_ign htree wcfg3 sched_lifo [[]] = Done [].
+Proof. exact ex_hidden_root. Qed.
